@@ -76,6 +76,7 @@ type Teamserver struct {
 	Clients    sync.Map // map[string]*Client
 	Users      []Users
 	EventsList []packager.Package
+	EventsMtx  sync.Mutex // guards EventsList: every operator and listener goroutine records events
 	Service    *service.Service
 	WebHooks   *webhook.WebHook
 	DB         *db.DB
